@@ -5,6 +5,7 @@ import DaeVerif.C13.TQ
 import DaeVerif.C13.EP
 import DaeVerif.C13.EPC
 import DaeVerif.C13.Route
+import DaeVerif.C13.Batch
 /-!
 # C13 — executable models (core Lean only)
 
@@ -14,5 +15,6 @@ import DaeVerif.C13.Route
 * `TQ`      — (a) per-flow task queues as an interleaving transition system (`udp_task_pool.go`)
 * `EP`      — (d) endpoint pool life cycle (`udp_endpoint_pool.go`), sequential specification
 * `Route`   — (d) which endpoint carries a packet: the endpoint part of `handlePkt` (`udp.go`)
+* `Batch`   — ingress batch reader: one exclusive buffer per packet (`udp_ingress_batch.go`)
 * `EPC`     — (d) the lock structure of `GetOrCreate` for one key (transition system, with its invariant)
 -/
